@@ -1,0 +1,39 @@
+//go:build verif
+
+// Copyright Istio Authors
+//
+// Licensed under the Apache License, Version 2.0 (the "License");
+// you may not use this file except in compliance with the License.
+// You may obtain a copy of the License at
+//
+//     http://www.apache.org/licenses/LICENSE-2.0
+//
+// Unless required by applicable law or agreed to in writing, software
+// distributed under the License is distributed on an "AS IS" BASIS,
+// WITHOUT WARRANTIES OR CONDITIONS OF ANY KIND, either express or implied.
+// See the License for the specific language governing permissions and
+// limitations under the License.
+
+package authenticate
+
+import (
+	"context"
+
+	"istio.io/istio/pkg/verif"
+)
+
+// ---------------------------------------------------------------------------------------------
+// C09: authentication never crashes on a malformed token, and yields a caller or an error
+// ---------------------------------------------------------------------------------------------
+
+// The token verifier and the claims decoder are the OIDC library's: whatever they accept is
+// unconstrained here, so the subject is an arbitrary string.
+//
+//verif:contract (*JwtAuthenticator).authenticate
+//verif:prop C09
+func ctJwtAuthenticate(j *JwtAuthenticator, ctx context.Context, bearerToken string) {
+	verif.Requires("authenticator-configured", j != nil && j.verifier != nil && j.meshHolder != nil)
+	caller, err := j.authenticate(ctx, bearerToken)
+	verif.Ensures("caller-or-error", (caller != nil) != (err != nil))
+	verif.Ensures("exactly-one-identity", caller == nil || len(caller.Identities) == 1)
+}
